@@ -23,10 +23,12 @@ def run(rep):
             'restart delay + bound + 700 ms after the kill; distinct = distinct observable outcome per scenario')
 
     silent = [{**s, 'dev_window': (0, 1600)} for s in fam if 'silent' in s['name']]
-    fam    = [s for s in fam if 'silent' not in s['name']]
+    late   = [{**s, 'dev_window': (2000, 2300)} for s in fam if s.get('late_d1')]
+    fam    = [s for s in fam if 'silent' not in s['name'] and not s.get('late_d1')]
 
     explore.explore(rep, 'kills-d0', fam, 0, bases, 'checks.oracles:oracle_c06', budget_s=900 if quick else 1700)
     explore.explore(rep, 'silent-d1', silent, 1, bases, 'checks.oracles:oracle_c06', budget_s=900)
+    explore.explore(rep, 'late-kill-d1', late, 1, bases, 'checks.oracles:oracle_c06', budget_s=900)      # kill after 2 s, one deviation in the 300 ms after it
 
     if not quick:
         core = [s for s in fam if s['name'] in ('chain3/mid', 'tee/a', 'rejoin2/b1')]
